@@ -1477,6 +1477,11 @@ def _min(eng, args, kwargs, node):
 
 @ext("max")
 def _max(eng, args, kwargs, node):
+    if len(args) == 1 and isinstance(args[0], SOpq) and eng.abstract:
+        # max over an opaque collection: an integer that is a function of the collection
+        r = SInt(V.uf("max_of", V.vsort(), z3.IntSort())(args[0].t))
+        eng.event("pure", "max", None, args, {}, node, r)
+        return r
     xs = args if len(args) > 1 else eng.static_items(args[0])
     if not xs:
         raise RaiseExc("ValueError", (), node, implicit=True)
@@ -1496,6 +1501,10 @@ def _abs(eng, args, kwargs, node):
 def _sum(eng, args, kwargs, node):
     x = args[0]
     start = args[1] if len(args) > 1 else 0
+    if isinstance(x, SOpq) and eng.abstract:
+        r = SInt(V.uf("sum_of", V.vsort(), z3.IntSort())(x.t))
+        eng.event("pure", "sum", None, args, {}, node, r)
+        return start + r
     c = seq_content(eng, x) if isinstance(x, Ref) else x
     if isinstance(c, SSeq):
         spec = eng.contract.sum_model
